@@ -211,7 +211,8 @@ def mpc2system(mpc: dict, system) -> bool:
         if pd != 0 or qd != 0:
             system.add('PQ', bus=idx, name='PQ ' + str(idx), Vn=baseKV, p0=pd, q0=qd)
         if gs or bs:
-            system.add('Shunt', bus=idx, name='Shunt ' + str(idx), Vn=baseKV, g=gs, b=bs)
+            # `gs` and `bs` are in p.u. on the system base
+            system.add('Shunt', bus=idx, name='Shunt ' + str(idx), Vn=baseKV, Sn=base_mva, g=gs, b=bs)
 
     gen_idx = 0
     for data in mpc['gen']:
@@ -269,20 +270,16 @@ def mpc2system(mpc: dict, system) -> bool:
 
         status = int(data[10])
 
-        if (data[8] == 0.0) or (data[8] == 1.0 and data[9] == 0.0):
-            # not a transformer
-            tf = False
-            tap_raio = 1
-            phase_shift = 0
-        else:
-            tf = True
-            tap_raio = data[8]
-            phase_shift = data[9] * deg2rad
+        # a zero ratio means a nominal tap; the phase shift applies regardless of the ratio
+        tap_raio = data[8] if data[8] != 0.0 else 1
+        phase_shift = data[9] * deg2rad
+        tf = not (tap_raio == 1 and data[9] == 0.0)
 
         vf = system.Bus.Vn.v[system.Bus.idx2uid(fbus)]
         vt = system.Bus.Vn.v[system.Bus.idx2uid(tbus)]
+        # `r`, `x` and `b` are in p.u. on the system base
         system.add('Line', u=status, name=f'Line {fbus:.0f}-{tbus:.0f}',
-                   Vn1=vf, Vn2=vt,
+                   Sn=base_mva, Vn1=vf, Vn2=vt,
                    bus1=fbus, bus2=tbus,
                    r=r, x=x, b=b,
                    trans=tf, tap=tap_raio, phi=phase_shift,
